@@ -1694,7 +1694,7 @@ theorem gen_PrecalcZone_read_loop1_eq (pol : Nat → Nat → Nat) (hp : PolicyOk
               · simp only [if_neg hge, ok_bind, Gen.pyListAppend]
                 have hi : ((i : Int) + 1) = ((i + 1 : Nat) : Int) := by omega
                 have hik : i + (k + 1) = (i + 1) + k := by omega
-                rw [hi, hik, ih k (i + 1) (acc ++ [⟨nm, start, next, wall, sav⟩]) next m r4 b4 (by omega)]
+                rw [hi, hik, ih k (i + 1) (acc ++ [(⟨nm, start, next, wall, sav⟩ : ZoneInterval)]) next m r4 b4 (by omega)]
                 rcases h5 : readPeriods m.pool k next r4 with er | ⟨ps, r5⟩
                 · rfl
                 · simp [ok_bind, endOf]
